@@ -168,3 +168,36 @@ def object_view(attrs, mk):
         else:
             out[t] = v
     return out
+
+
+def aes_ecb_encrypt_block(key, block=bytes(16)):
+    """one AES block under key (16/24/32 bytes), ECB - for key check values"""
+    L = _load() if "_load" in globals() else None
+    import ctypes, ctypes.util
+    lib = ctypes.CDLL(ctypes.util.find_library("crypto") or "libcrypto.so.3")
+    fn = {16: "EVP_aes_128_ecb", 24: "EVP_aes_192_ecb", 32: "EVP_aes_256_ecb"}.get(len(key))
+    if fn is None: return None
+    getattr(lib, fn).restype = ctypes.c_void_p
+    lib.EVP_CIPHER_CTX_new.restype = ctypes.c_void_p
+    lib.EVP_CIPHER_CTX_free.argtypes = [ctypes.c_void_p]
+    lib.EVP_EncryptInit_ex.argtypes = [ctypes.c_void_p, ctypes.c_void_p, ctypes.c_void_p, ctypes.c_char_p, ctypes.c_char_p]
+    lib.EVP_EncryptUpdate.argtypes = [ctypes.c_void_p, ctypes.c_char_p, ctypes.POINTER(ctypes.c_int), ctypes.c_char_p, ctypes.c_int]
+    lib.EVP_CIPHER_CTX_set_padding.argtypes = [ctypes.c_void_p, ctypes.c_int]
+    ctx = lib.EVP_CIPHER_CTX_new()
+    try:
+        if lib.EVP_EncryptInit_ex(ctx, getattr(lib, fn)(), None, key, None) != 1: return None
+        lib.EVP_CIPHER_CTX_set_padding(ctx, 0)
+        out = ctypes.create_string_buffer(32); n = ctypes.c_int(0)
+        if lib.EVP_EncryptUpdate(ctx, out, ctypes.byref(n), block, 16) != 1: return None
+        return out.raw[:16]
+    finally:
+        lib.EVP_CIPHER_CTX_free(ctx)
+
+def kcv(kind, value):
+    """SoftHSM's CKA_CHECK_VALUE: generic secrets - first 3 bytes of SHA-1(value); AES - first 3 bytes of the encrypted zero block"""
+    import hashlib
+    if kind == "generic": return hashlib.sha1(value).digest()[:3]
+    if kind == "aes":
+        b = aes_ecb_encrypt_block(value)
+        return b[:3] if b else None
+    return None
